@@ -201,3 +201,37 @@ MUTANTS += [
     {"id": "C09-fallback-unwrap-or-one", "prop": "C09", "expect": "MEASURE-FALLBACK",
      "edits": [(R_, _FALLBACK_SUM, "                            .map(|c| c.width().unwrap_or(1))\n                            .sum(),")]},
 ]
+
+
+# ---- round 4 (C09-J, C09-L, C10-K): fallback width in a private helper, exact fast path for the empty buffer, width through the max() getter
+MUTANTS += [
+    {"id": 'C09-benign-fallback-width-helper', "prop": "C09", "benign": True,
+     "edits": [('src/render.rs', '                    Size {\n                        height: 1,\n                        width: glyph\n                            .fallback_str()\n                            .chars()\n                            .map(|c| c.width().unwrap_or(0))\n                            .sum(),\n                    }\n', '                    Size::new(1, glyph_fallback_width(glyph))\n'), ('src/render.rs', '#[derive(Clone, Copy, Default, PartialEq, Eq, Hash)]\nenum CellMark {', 'fn glyph_fallback_width(glyph: &Glyph) -> usize {\n    glyph.fallback_str().chars().map(|fallback_char| fallback_char.width().unwrap_or(0)).sum()\n}\n\n#[derive(Clone, Copy, Default, PartialEq, Eq, Hash)]\nenum CellMark {')]},
+    {"id": 'C09-fallback-width-helper-counts-chars', "prop": "C09", "expect": 'MEASURE-FALLBACK',
+     "edits": [('src/render.rs', '                    Size {\n                        height: 1,\n                        width: glyph\n                            .fallback_str()\n                            .chars()\n                            .map(|c| c.width().unwrap_or(0))\n                            .sum(),\n                    }\n', '                    Size::new(1, glyph_fallback_width(glyph))\n'), ('src/render.rs', '#[derive(Clone, Copy, Default, PartialEq, Eq, Hash)]\nenum CellMark {', 'fn glyph_fallback_width(glyph: &Glyph) -> usize {\n    glyph.fallback_str().chars().map(|_| 1usize).sum()\n}\n\n#[derive(Clone, Copy, Default, PartialEq, Eq, Hash)]\nenum CellMark {')]},
+    {"id": 'C09-fallback-width-helper-unwrap-or-one', "prop": "C09", "expect": 'MEASURE-FALLBACK',
+     "edits": [('src/render.rs', '                    Size {\n                        height: 1,\n                        width: glyph\n                            .fallback_str()\n                            .chars()\n                            .map(|c| c.width().unwrap_or(0))\n                            .sum(),\n                    }\n', '                    Size::new(1, glyph_fallback_width(glyph))\n'), ('src/render.rs', '#[derive(Clone, Copy, Default, PartialEq, Eq, Hash)]\nenum CellMark {', 'fn glyph_fallback_width(glyph: &Glyph) -> usize {\n    glyph.fallback_str().chars().map(|c| c.width().unwrap_or(1)).sum()\n}\n\n#[derive(Clone, Copy, Default, PartialEq, Eq, Hash)]\nenum CellMark {')]},
+    {"id": 'C09-benign-write-empty-fast-path', "prop": "C09", "benign": True,
+     "edits": [('src/render.rs', "impl std::io::Write for TerminalWriter<'_> {\n    fn write(&mut self, buf: &[u8]) -> std::io::Result<usize> {\n        let mut cur = std::io::Cursor::new(buf);\n", "impl std::io::Write for TerminalWriter<'_> {\n    fn write(&mut self, buf: &[u8]) -> std::io::Result<usize> {\n        if buf.is_empty() {\n            return Ok(0);\n        }\n        let mut cur = std::io::Cursor::new(buf);\n")]},
+    {"id": 'C09-benign-write-empty-fast-path-len', "prop": "C09", "benign": True,
+     "edits": [('src/render.rs', "impl std::io::Write for TerminalWriter<'_> {\n    fn write(&mut self, buf: &[u8]) -> std::io::Result<usize> {\n        let mut cur = std::io::Cursor::new(buf);\n", "impl std::io::Write for TerminalWriter<'_> {\n    fn write(&mut self, buf: &[u8]) -> std::io::Result<usize> {\n        if buf.len() == 0 {\n            return Ok(buf.len());\n        }\n        let mut cur = std::io::Cursor::new(buf);\n")]},
+    {"id": 'C09-benign-write-empty-fast-path-negated', "prop": "C09", "benign": True,
+     "edits": [('src/render.rs', "impl std::io::Write for TerminalWriter<'_> {\n    fn write(&mut self, buf: &[u8]) -> std::io::Result<usize> {\n        let mut cur = std::io::Cursor::new(buf);\n", "impl std::io::Write for TerminalWriter<'_> {\n    fn write(&mut self, buf: &[u8]) -> std::io::Result<usize> {\n        let any = !buf.is_empty();\n        if !any {\n            return Ok(0);\n        }\n        let mut cur = std::io::Cursor::new(buf);\n")]},
+    {"id": 'C09-write-fast-path-on-nonempty', "prop": "C09", "expect": 'WRITER-FOLD',
+     "edits": [('src/render.rs', "impl std::io::Write for TerminalWriter<'_> {\n    fn write(&mut self, buf: &[u8]) -> std::io::Result<usize> {\n        let mut cur = std::io::Cursor::new(buf);\n", "impl std::io::Write for TerminalWriter<'_> {\n    fn write(&mut self, buf: &[u8]) -> std::io::Result<usize> {\n        if !buf.is_empty() {\n            return Ok(0);\n        }\n        let mut cur = std::io::Cursor::new(buf);\n")]},
+    {"id": 'C09-write-fast-path-short-buffer', "prop": "C09", "expect": 'WRITER-FOLD',
+     "edits": [('src/render.rs', "impl std::io::Write for TerminalWriter<'_> {\n    fn write(&mut self, buf: &[u8]) -> std::io::Result<usize> {\n        let mut cur = std::io::Cursor::new(buf);\n", "impl std::io::Write for TerminalWriter<'_> {\n    fn write(&mut self, buf: &[u8]) -> std::io::Result<usize> {\n        if buf.len() < 2 {\n            return Ok(0);\n        }\n        let mut cur = std::io::Cursor::new(buf);\n")]},
+    {"id": 'C09-write-fast-path-returns-one', "prop": "C09", "expect": 'WRITER-FOLD',
+     "edits": [('src/render.rs', "impl std::io::Write for TerminalWriter<'_> {\n    fn write(&mut self, buf: &[u8]) -> std::io::Result<usize> {\n        let mut cur = std::io::Cursor::new(buf);\n", "impl std::io::Write for TerminalWriter<'_> {\n    fn write(&mut self, buf: &[u8]) -> std::io::Result<usize> {\n        if buf.is_empty() {\n            return Ok(1);\n        }\n        let mut cur = std::io::Cursor::new(buf);\n")]},
+]
+
+MUTANTS += [
+    {"id": 'C09-benign-layout-width-through-getter', "prop": "C09", "benign": True,
+     "edits": [('src/view/text.rs', 'cell.layout(ctx, ct.max.width, self.wraps, &mut size, &mut cursor);', 'cell.layout(ctx, ct.max().width, self.wraps, &mut size, &mut cursor);')]},
+    {"id": 'C09-benign-str-layout-width-through-getter', "prop": "C09", "benign": True,
+     "edits": [('src/view/text.rs', 'Cell::new_char(face, c).layout(ctx, ct.max.width, true, &mut size, &mut cursor);', 'let limit = ct.max();\n            Cell::new_char(face, c).layout(ctx, limit.width, true, &mut size, &mut cursor);')]},
+    {"id": 'C09-layout-width-through-min-getter', "prop": "C09", "expect": 'SHARED-LAYOUT',
+     "edits": [('src/view/text.rs', 'cell.layout(ctx, ct.max.width, self.wraps, &mut size, &mut cursor);', 'cell.layout(ctx, ct.min().width, self.wraps, &mut size, &mut cursor);')]},
+    {"id": 'C09-layout-width-is-max-height', "prop": "C09", "expect": 'SHARED-LAYOUT',
+     "edits": [('src/view/text.rs', 'cell.layout(ctx, ct.max.width, self.wraps, &mut size, &mut cursor);', 'cell.layout(ctx, ct.max().height, self.wraps, &mut size, &mut cursor);')]},
+]
